@@ -394,6 +394,24 @@ def main():
     # coordination with the seeded-change runs of the build round (tools/with_patch.sh holds
     # /tmp/repo.lock while /repo carries a patch): with VCHECK_REPO_LOCK=1 everything that reads
     # /repo's sources (translators, cargo build) happens while holding that lock.  Off by default.
+    # one check of a property at a time: they share work/<id>/ (case files, scratch, summary)
+    plock = os.path.join(WORK, pid, ".lock")
+    os.makedirs(os.path.join(WORK, pid), exist_ok=True)
+    while True:
+        try:
+            os.mkdir(plock)
+            open(os.path.join(plock, "pid"), "w").write(str(os.getpid()))
+            break
+        except FileExistsError:
+            try:
+                other = int(open(os.path.join(plock, "pid")).read().strip())
+                os.kill(other, 0)
+            except (OSError, ValueError):
+                shutil.rmtree(plock, ignore_errors=True)   # the holder is gone
+                continue
+            time.sleep(5)
+    import atexit
+    atexit.register(lambda: shutil.rmtree(plock, ignore_errors=True))
     locked = False
     if os.environ.get("VCHECK_REPO_LOCK") == "1":
         while True:
